@@ -6,4 +6,4 @@ cd /repo || exit 2
 if [ -n "$(git status --porcelain)" ]; then echo "repo not clean"; exit 2; fi
 git apply "$PATCH" || { echo "patch does not apply"; exit 2; }
 cd /verif && timeout 600 ./check.sh "$ID" quick 2>&1 | grep -v "^KNOWN-FINDING" | grep -E "^VIOLATION rule|^UNDECIDED|^SUMMARY.*violations=[1-9]|^SUMMARY.*undecided=[1-9]|ANALYSIS-ERROR" | cut -c1-420
-git -C /repo checkout -- . ; git -C /repo status --porcelain | head -3
+git -C /repo checkout -- . ; git -C /repo clean -fdq; git -C /repo status --porcelain | head -3
